@@ -34,6 +34,14 @@ PAYLOADS = [
     f"__import__('os').system('true')", f"'+__import__('os').getcwd()+'", "\\x27+str(1)+\\x27", "\\N{APOSTROPHE}", f"'\\\n{S}()#",
     f"')\\n{S}()\\n('", "';", "'#", "'\\", f"\\u0027+{S}()+\\u0027", f"' {S}() '", f"',weights=[{S}()],x='",
 ]  # fmt: skip
+# the literal's own delimiter (and a newline) spelled in other notations - character references, URL / MIME / UTF-7
+# encodings, escapes of other languages: a decoding layer anywhere in front of the lexer would end the literal there
+ENCODED = {"'": ["&apos;", "&#39;", "&#x27;", "&#039;", "&amp;apos;", "%27", "\\u0027", "\\x27", "\\047", "=27", "+ACc-", "\\N{APOSTROPHE}", "&#x0027;", "&#39"],
+           '"': ["&quot;", "&#34;", "&#x22;", "&QUOT;", "&amp;quot;", "%22", "\\u0022", "\\x22", "\\042", "=22", "+ACI-", "\\N{QUOTATION MARK}", "&quot", "&#34"]}
+for _q, _encs in ENCODED.items():
+    for _e in _encs:
+        PAYLOADS += [f"{_e}+str({S}())+{_e}", f"fr{_e} or f != {_e}zz", f"s1{_e} splitters: uid return {_e}pwned{_e} weighted 1 }} /*", f"x{_e}", f"{_e}"]
+PAYLOADS += [f"a&#10;{S}()", f"a%0a{S}()", f"a\\n{S}()", f"a&#13;&#10;{S}()", "&amp;", "&lt;script&gt;", "&#0;", "&#x110000;", "&nbsp;", "%00", "%", "%2", "%%", "$$", "${" + S + "}", "$" + S, "\\$"]
 MARK = "hArMlEsS"
 T, F = ("ret", (("T", "1"),)), ("else", ("ret", (("F", "1"),)))
 
